@@ -285,7 +285,7 @@ PROPS = {
                      "Hctl.canonTreeAux_shape", "Hctl.eq_mapVars_of_canon_eq", "Hctl.canonTreeAux_mapKeys", "Hctl.sat_renameVar",
                      "Hctl.keySem_holds", "Hctl.keyWild_holds", "Hctl.single_name_transfer", "Hctl.dups_le_one", "Hctl.markDups_witness",
                      "Hctl.canonTree_idempotent", "Hctl.canonChars_idempotent", "Hctl.canon_invariant_under_renaming",
-                     "Hctl.canon_eq_imp_renaming_single"],
+                     "Hctl.canon_eq_imp_renaming_single", "Hctl.markDups_count"],
         "ks": ["k5", "k6"],
         "spec_tied": [],
         "full": False,
@@ -297,10 +297,10 @@ PROPS = {
                       "Also proved: idempotence (canonTree_idempotent, canonChars_idempotent), 'equal up to an injective renaming => same canonical "
                       "form' for any number of variables (canon_invariant_under_renaming), the converse for single-named trees "
                       "(canon_eq_imp_renaming_single), and that mark_duplicates only reports keys of sub-formulae with at most one "
-                      "variable (markDups_witness). NOT proved in Lean: the converse 'same canonical form => equal up to renaming' for "
-                      "SEVERAL variables (the cache never uses such keys) and the numeric duplicate-counter bound (n+1 occurrences); "
-                      "these are decided by the model-free oracles of K5/K6 (independent alpha-normal form, independent occurrence "
-                      "count) and the model<->code correspondence",
+                      "variable (markDups_witness). The counter bound is proved too (markDups_count: counter n >= 1 and at least n+1 occurrences with that key). NOT proved "
+                      "in Lean: only the converse 'same canonical form => equal up to renaming' for SEVERAL variables (the cache never "
+                      "uses such keys); it is decided by the model-free oracle of K5 (independent alpha-normal form) and the "
+                      "model<->code correspondence",
         "rule": "K5: every sub-formula of all preprocessed trees with <= 4 (5) nodes + random preprocessed trees (propositions such as a3, V_b); "
                 "pairwise oracle: same canonical form iff same alpha-normal form. K6: batches of 1-4 formulae with planted overlaps "
                 "(renamed, under same/different/nested domains, under jumps); oracle: independent occurrence count",
